@@ -486,6 +486,11 @@ func TestConcurrent(t *testing.T) {
 			if stale := staleInPool(s, content); len(stale) > 0 {
 				t.Fatalf("pool still holds transactions with a consumed nonce or a past epoch: %s\n%s", txsDesc(w, stale), ctx())
 			}
+			for si := 0; si < nSenders; si++ {
+				if stale := staleInPool(s, pool.GetPendingByAddress(w.Actors[si].Addr)); len(stale) > 0 {
+					t.Fatalf("GetPendingByAddress(%s) still lists transactions with a consumed nonce or a past epoch: %s\n%s", w.Actors[si], txsDesc(w, stale), ctx())
+				}
+			}
 		}
 		for h := range includedAt {
 			if pool.GetTx(h) != nil && prunesOn(r, s) {
